@@ -124,6 +124,15 @@ class Ref:
 
     def py(self, src):
         try:
+            if ' for ' in src:
+                # a generator expression is evaluated lazily: its free names are read from the LIVE
+                # context at the moment each item is pulled
+                ctx = self.ctx
+
+                class Live(dict):
+                    def __missing__(self, k):
+                        return ctx[k]
+                return eval(src, Live())
             return eval(src, {}, dict(self.ctx))
         except Exception as e:
             raise StepError(type(e).__name__, str(e))
@@ -509,11 +518,19 @@ class Ref:
         items = self.fmt(raw)
         if isinstance(items, dict):
             items = list(items.keys())
-        if not isinstance(items, (list, tuple)):
+        import types
+        if not isinstance(items, (list, tuple, types.GeneratorType)):
             raise Unsupported('not iterable')
         if not raw and not isinstance(raw, bool):
             self.notes.add('foreach-literal-falsy')
-        for it in items:
+        puller = iter(items)
+        while True:
+            try:
+                it = next(puller)
+            except StopIteration:
+                break
+            except Exception as e:      # a lazy iterable failing when pulled: the loop's own error
+                raise StepError(type(e).__name__, None)
             self.ctx['i'] = it
             loc2 = dict(loc)
             loc2['i'] = it
